@@ -27,7 +27,11 @@ RULE = ("ADMGs with 3-5 nodes (thorough: up to 6; half random, half mutations of
         "X (possibly empty), Y, Z (1-2 each) through idc(Identification) and identify_outcomes(conditions=…); corpus = "
         "figure 6a of Shpitser-Pearl 2008 and the F2 witness; a malformed stream (overlaps, nodes outside the graph); "
         "structured graphs with 2-3 conditions one of which is an opened collider (or a descendant of one) between the "
-        "tested condition and the outcome and no ancestor of either (tag nonancestor_conditions), 4-6 nodes. "
+        "tested condition and the outcome and no ancestor of either (tag nonancestor_conditions), 4-6 nodes; structured "
+        "collider CHAINS Z <- A -> C1 <-> C2 (<-> C3) <- Y with every Ci a condition (3-4 conditions, 5-7 nodes; the parents on "
+        "the two sides belong to different members of one conditioned district; seeds C03c / C04c); 2-4 exchangeable conditions in a "
+        "row (several successive exchanges, optionally followed by a refusal through a bow arc at a treatment) and napkin-like graphs "
+        "with extra conditions (final ID call through line 7 on a carried estimand), 4-7 nodes (gap review round 5). "
         "Every returned estimand is evaluated exactly on 2-3 random positive SCMs at every assignment. A case is "
         "non-trivial when rule 2 was tested with both outcomes (some exchange made or refused) or ID used lines 4-7.")
 ASSUMPTIONS = [
@@ -57,6 +61,206 @@ def _slots(case):
 
 def _forms(case):
     return F.forms_of(case, _slots(case))
+
+
+
+def collider_chain_family(rng: random.Random, nmax=6):
+    """structured generator for the rule-2 test with a CHAIN of conditioned colliders joined by bidirected edges
+    (seeds C03c / C04c; mutation campaign B):
+
+        Z (<- A -> | <-> A ->) C1 <-> C2 (<-> C3) (<- Y | <- B <- Y | <- B -> Y | <- B <-> Y),   query P(Y | do(X), Z, C1, .., Ck)
+
+    Every Ci is a condition, so the path is open given the other conditions and the exchange of Z must be refused; the
+    parents A (left) and Y / B (right) belong to DIFFERENT members of the district {C1..Ck} and are connected only through it.
+    Optional: a treatment X (parent of Y, A or B), a direct effect Z -> Y (removed by the test, it leaves Z), one more
+    bidirected edge A <-> C1 / C1 <-> C3 (other districts of the conditioned nodes), a chain member that is not conditioned
+    but has a conditioned child (control: then the district is not inside the conditioning set), random relabelling.
+    5-7 nodes, 3-4 conditions.  Returns (g, X, Y, Z, kind)."""
+    names = []
+
+    def new(tag):
+        names.append(tag)
+        return len(names) - 1
+
+    k = rng.choice([2, 2, 2, 3])
+    left = rng.choice(["fork", "fork", "bifork"])
+    right = rng.choice(["di", "di", "di", "chain", "fork", "bi"])
+    has_x = rng.random() < 0.45
+    need = lambda: 3 + k + (right != "di") + has_x  # noqa: E731
+    while need() > nmax:
+        if right != "di":
+            right = "di"
+        elif has_x:
+            has_x = False
+        elif k > 2:
+            k -= 1
+        else:
+            break
+    a, z = new("A"), new("Z")
+    cs = [new("C%d" % i) for i in range(k)]
+    y = new("Y")
+    b = new("B") if right != "di" else None
+    x = new("X") if has_x else None
+    di, bi = [], []
+    if left == "fork":
+        di += [[a, z], [a, cs[0]]]
+    else:
+        bi.append([a, z])
+        di.append([a, cs[0]])
+    for u, v in zip(cs, cs[1:]):
+        bi.append([u, v])
+    if right == "di":
+        di.append([y, cs[-1]])
+    elif right == "chain":
+        di += [[y, b], [b, cs[-1]]]
+    elif right == "fork":
+        di += [[b, y], [b, cs[-1]]]
+    else:
+        bi.append([b, y])
+        di.append([b, cs[-1]])
+    if has_x:
+        di.append([x, rng.choice([y, y, a] + ([b] if right == "fork" else []))])
+    if rng.random() < 0.25:
+        di.append([z, y])
+    extra = rng.random()
+    if extra < 0.12:
+        bi.append([a, cs[0]])
+    elif extra < 0.2 and k == 3:
+        bi.append([cs[0], cs[2]])
+    Z = [z] + list(cs)
+    kind = "chain%d:%s-%s" % (k, left, right)
+    if rng.random() < 0.12 and len(names) < nmax:
+        # control: the last chain member is opened by a conditioned child instead of being conditioned itself
+        d = new("D")
+        di.append([cs[-1], d])
+        Z = [z] + list(cs[:-1]) + [d]
+        kind += "+desc"
+    X = [x] if has_x else []
+    n = len(names)
+    perm = list(range(n))
+    rng.shuffle(perm)
+    dil = [[perm[u], perm[v]] for u, v in di]
+    bil = [[perm[u], perm[v]] if rng.random() < 0.5 else [perm[v], perm[u]] for u, v in bi]
+    rng.shuffle(dil)
+    rng.shuffle(bil)
+    nodes = list(range(n))
+    rng.shuffle(nodes)
+    return ({"nodes": nodes, "di": dil, "bi": bil}, sorted(perm[v] for v in X), [perm[y]], sorted(perm[v] for v in Z),
+            kind + ("+x" if X else ""))
+
+
+
+def multi_exchange_family(rng: random.Random, nmax=6):
+    """structured generator for SEVERAL successive rule-2 exchanges (gap review round 5): 2-4 conditions Z1..Zk that are
+    causes of the outcome without any back-door path (chain Z1 -> Z2 -> .. -> Y, or independent parents Zi -> Y), so that every
+    one of them is exchanged, one after the other; optionally
+
+      * one condition is made non-exchangeable (Zi <-> Y, or a child Y -> Zi): exchanges followed by the final normalisation,
+      * a treatment X -> Y, optionally with a bow arc X <-> Y: all exchanges succeed and the final ID call REFUSES,
+      * an extra ancestor U -> Z1 / isolated node.
+
+    Returns (g, X, Y, Z, kind)."""
+    names = []
+
+    def new(tag):
+        names.append(tag)
+        return len(names) - 1
+
+    k = rng.choice([2, 3, 3, 4])
+    shape = rng.choice(["chain", "parents", "mixed"])
+    bad = rng.choice(["none", "none", "bi", "child"])
+    xkind = rng.choice(["none", "x", "bow", "bow"])
+    extra = rng.random() < 0.3
+    need = lambda: 1 + k + (xkind != "none") + extra  # noqa: E731
+    while need() > nmax:
+        if extra:
+            extra = False
+        elif k > 2:
+            k -= 1
+        else:
+            xkind = "none"
+    y = new("Y")
+    zs = [new("Z%d" % i) for i in range(k)]
+    di, bi = [], []
+    for i, z in enumerate(zs):
+        if shape == "chain" or (shape == "mixed" and i % 2 == 0):
+            di.append([z, zs[i + 1]] if i + 1 < k else [z, y])
+            if shape == "mixed" and i + 1 < k and rng.random() < 0.5:
+                di.append([z, y])
+        else:
+            di.append([z, y])
+    kind = "multi%d:%s" % (k, shape)
+    if bad == "bi":
+        bi.append([zs[rng.randrange(k)], y])
+        kind += "+bi"
+    elif bad == "child":
+        j = rng.randrange(k)
+        di = [e for e in di if e[0] != zs[j]]
+        di.append([y, zs[j]])
+        kind += "+child"
+    X = []
+    if xkind != "none":
+        x = new("X")
+        di.append([x, y])
+        X = [x]
+        if xkind == "bow":
+            bi.append([x, y])
+            kind += "+bow"
+        else:
+            kind += "+x"
+    if extra:
+        u = new("U")
+        if rng.random() < 0.6:
+            di.append([u, zs[0]])
+    n = len(names)
+    perm = list(range(n))
+    rng.shuffle(perm)
+    dil = [[perm[a], perm[b]] for a, b in di]
+    bil = [[perm[a], perm[b]] if rng.random() < 0.5 else [perm[b], perm[a]] for a, b in bi]
+    rng.shuffle(dil)
+    rng.shuffle(bil)
+    nodes = list(range(n))
+    rng.shuffle(nodes)
+    return ({"nodes": nodes, "di": dil, "bi": bil}, sorted(perm[v] for v in X), [perm[y]], sorted(perm[v] for v in zs), kind)
+
+
+def idc_napkin_family(rng: random.Random, nmax=7):
+    """IDC whose final ID call goes through line 7 on a carried estimand (gap review round 5): a napkin-like graph of
+    R.napkin_family (5-6 nodes) with 1-2 extra nodes as conditions: a parent of an outcome (exchanged: ID of P(Y | do(X, Z))),
+    a child of an outcome (not exchangeable: ID of P(Y, Z | do(X)) and the normalisation), or the napkin's own R / W nodes.
+    Returns (g, X, Y, Z, kind)."""
+    g, X, Y, kind = R.napkin_family(rng, nmax - rng.choice([1, 1, 2]))
+    g = {"nodes": list(g["nodes"]), "di": [list(e) for e in g["di"]], "bi": [list(e) for e in g["bi"]]}
+    nodes = G.all_nodes(g)
+    Z = []
+    n = max(nodes) + 1
+    room = nmax - len(nodes)
+    tags = []
+    for _ in range(min(room, rng.choice([1, 1, 2]))):
+        z = n
+        n += 1
+        g["nodes"].append(z)
+        t = rng.random()
+        yv = rng.choice(Y)
+        if t < 0.45:
+            g["di"].append([z, yv])
+            tags.append("par")
+        elif t < 0.8:
+            g["di"].append([yv, z])
+            tags.append("child")
+        else:
+            g["di"].append([z, yv])
+            g["bi"].append([z, yv])
+            tags.append("bow")
+        Z.append(z)
+    if not Z or rng.random() < 0.25:
+        free = [v for v in nodes if v not in X and v not in Y]
+        if free:
+            Z.append(rng.choice(free))
+            tags.append("own")
+    if not Z:
+        return None
+    return g, X, Y, sorted(set(Z)), "idcnapkin:" + kind + "+" + "".join(sorted(set(tags)))
 
 
 def cases(rng: random.Random, tier: str):
@@ -89,6 +293,28 @@ def _cases(rng: random.Random, tier: str):
             continue
         out.append({"g": g, "X": q[0], "Y": q[1], "Z": q[2], "via": "idc" if rng.random() < 0.8 else "identify_outcomes",
                     "label": "random", "seed": rng.randrange(1 << 30)})
+    # structured: a chain of conditioned colliders joined by bidirected edges between the tested condition and the
+    # outcome (collider_chain_family; seeds C03c / C04c): 3-4 conditions, 5-7 nodes, binary variables from 6 nodes on
+    nc = 220 if tier == "quick" else 1500
+    for k in range(nc):
+        g, X, Y, Z, kind = collider_chain_family(rng, (5, 6, 6, 7)[k % 4])
+        out.append({"g": g, "X": X, "Y": Y, "Z": Z, "via": "idc" if k % 5 else "identify_outcomes",
+                    "label": "structured:" + kind, "seed": rng.randrange(1 << 30)})
+    # structured (gap review round 5): several successive exchanges (2-4 conditions), exchanges followed by a refusal,
+    # IDC whose final ID call takes line 7 on a carried estimand; 4-7 nodes
+    nm = 160 if tier == "quick" else 1200
+    for k in range(nm):
+        g, X, Y, Z, kind = multi_exchange_family(rng, (4, 5, 6, 6)[k % 4])
+        out.append({"g": g, "X": X, "Y": Y, "Z": Z, "via": "idc" if k % 5 else "identify_outcomes",
+                    "label": "structured:" + kind, "seed": rng.randrange(1 << 30)})
+    nn = 120 if tier == "quick" else 1000
+    for k in range(nn):
+        r = idc_napkin_family(rng, (6, 7, 7)[k % 3])
+        if r is None:
+            continue
+        g, X, Y, Z, kind = r
+        out.append({"g": g, "X": X, "Y": Y, "Z": Z, "via": "idc" if k % 5 else "identify_outcomes",
+                    "label": "structured:" + kind, "seed": rng.randrange(1 << 30)})
     return out
 
 
